@@ -64,7 +64,9 @@ def showR {α} (f : α → String) : R α → String
   | .err e => "err " ++ cerrName e
   | .panic => "panic"
 
-/-! ### Wire-log digest (sleeps are not observable on the implementation side) -/
+/-! ### Wire-log digest (timeouts included; the sleeps are reported as count:total ms, which the
+harness derives independently from the pending acknowledges on the wire and checks against
+the measured elapsed time) -/
 
 def ctlCode : CtlReq → Nat
   | .claim => 0 | .release => 1 | .setHaltIn => 2 | .setHaltOut => 3
@@ -75,16 +77,19 @@ def optErrCode : Option UsbErr → Nat
   | some e => usbErrCode e
 
 def evDigest (h : UInt64) : Ev → UInt64
-  | .send bytes err => fnvBytes (fnvNat (fnvNat (fnvNat h 1) (optErrCode err)) bytes.length) bytes
-  | .recv bufLen (.ok bytes) => fnvBytes (fnvNat (fnvNat (fnvNat h 2) bufLen) bytes.length) bytes
-  | .recv bufLen (.error e) => fnvNat (fnvNat (fnvNat h 3) bufLen) (usbErrCode e)
+  | .send bytes t err =>
+    fnvBytes (fnvNat (fnvNat (fnvNat (fnvNat h 1) t) (optErrCode err)) bytes.length) bytes
+  | .recv bufLen t (.ok bytes) =>
+    fnvBytes (fnvNat (fnvNat (fnvNat (fnvNat h 2) t) bufLen) bytes.length) bytes
+  | .recv bufLen t (.error e) => fnvNat (fnvNat (fnvNat (fnvNat h 3) t) bufLen) (usbErrCode e)
   | .sleep _ => h
-  | .ctl r err => fnvNat (fnvNat (fnvNat h 4) (ctlCode r)) (optErrCode err)
+  | .ctl r t err => fnvNat (fnvNat (fnvNat (fnvNat h 4) (ctlCode r)) (optErrCode err)) t
 
 structure LogStat where
   sends : Nat := 0
   recvs : Nat := 0
   sleeps : Nat := 0
+  sleepMs : Nat := 0
   ctls : Nat := 0
   h : UInt64 := fnvInit
 
@@ -94,11 +99,11 @@ def logStat (logRev : List Ev) : LogStat :=
     match e with
     | .send .. => { st with sends := st.sends + 1 }
     | .recv .. => { st with recvs := st.recvs + 1 }
-    | .sleep .. => { st with sleeps := st.sleeps + 1 }
+    | .sleep ms => { st with sleeps := st.sleeps + 1, sleepMs := st.sleepMs + ms }
     | .ctl .. => { st with ctls := st.ctls + 1 }) {}
 
 def LogStat.show (l : LogStat) : String :=
-  s!"s={l.sends} r={l.recvs} c={l.ctls} log={natToHex 16 l.h.toNat}"
+  s!"s={l.sends} r={l.recvs} c={l.ctls} sl={l.sleeps}:{l.sleepMs} log={natToHex 16 l.h.toNat}"
 
 /-- deterministic data pattern shared with the harness -/
 def dataPattern (len seed : Nat) : Bytes :=
